@@ -205,6 +205,16 @@ def quit_reason_rule(rep, prog):
         rep.violation("R1b", "helper:never-sets-quit", "radar::init_tcp_reader never sets the quit reason, yet main relies on it being set when Ok(None) is returned")
     if any(w == "None" for _b, w in hw):
         rep.violation("R1b", "helper:clears-quit", "radar::init_tcp_reader clears the quit reason")
+    # the contract itself, path by path: whatever the quit reason was on entry, a return of Ok(None) leaves a reason set
+    from .c16 import reconnect_outcomes
+    for initial in (None, "TcpDisconnect"):
+        res, _ip = reconnect_outcomes(prog, initial)
+        if res is None:
+            rep.violation("R1b", "anchor:reconnect-helper", "radar::init_tcp_reader / radar::Settings.quit not found in the expected shape")
+            break
+        rep.instance(rid, "helper-paths|%s" % initial, sample={"entered with quit": str(initial), "outcomes": sorted(set("%s/%s" % r for r in res))})
+        if any(k == "Ok(None)" and q is None for k, q in res):
+            rep.violation("R1b", "helper:gives-up-without-reason", "radar::init_tcp_reader (entered with quit = %s) returns Ok(None) on a path that leaves the quit reason unset: main leaves its loop and the clean-up's unwrap() of the reason panics before the terminal is restored" % initial)
 
 
 def site_of_block(fn, b):
@@ -301,6 +311,145 @@ def _origin_field(fn, blk, pl, depth=0):
     return found[0] if len(found) == 1 else None
 
 
+def _assign_counts(fn):
+    c = fn.get("_assign_counts")
+    if c is None:
+        c = {}
+        borrowed = set()
+        for b_ in fn["blocks"]:
+            for s_ in b_["stmts"]:
+                if "assign" in s_:
+                    pl, rv = s_["assign"]
+                    c[pl["local"]] = c.get(pl["local"], 0) + 1
+                    if isinstance(rv, dict):
+                        for k in ("ref", "addr_of"):
+                            if k in rv and rv[k].get("mut", True):
+                                borrowed.add(rv[k]["place"]["local"])
+            t_ = b_["term"] or {}
+            if "call" in t_:
+                d_ = t_["call"]["dest"]["local"]
+                c[d_] = c.get(d_, 0) + 1
+        for l_ in borrowed:
+            c[l_] = c.get(l_, 0) + 2      # may change through the reference: never a fixed value
+        fn["_assign_counts"] = c
+    return c
+
+
+def _root_local(fn, opnd, depth=0):
+    """the local an operand is a plain copy of, through temporaries that are assigned exactly once (None for anything else)"""
+    pl = opnd.get("copy") or opnd.get("move") if isinstance(opnd, dict) else None
+    if pl is None or pl["proj"]:
+        return None
+    l_ = pl["local"]
+    cnt = _assign_counts(fn)
+    if depth > 6:
+        return None
+    if cnt.get(l_, 0) == 1:
+        for b_ in fn["blocks"]:
+            for s_ in b_["stmts"]:
+                if "assign" in s_ and not s_["assign"][0]["proj"] and s_["assign"][0]["local"] == l_:
+                    rv = s_["assign"][1]
+                    if isinstance(rv, dict) and "use" in rv and ("copy" in rv["use"] or "move" in rv["use"]):
+                        r_ = _root_local(fn, rv["use"], depth + 1)
+                        if r_ is not None:
+                            return r_
+        return l_
+    if cnt.get(l_, 0) == 0 and 1 <= l_ <= fn.get("arg_count", 0):
+        return l_          # an argument that is never reassigned
+    return None
+
+
+def _const_int(opnd):
+    c = opnd.get("const") if isinstance(opnd, dict) else None
+    return c.get("int") if isinstance(c, dict) and isinstance(c.get("int"), int) else None
+
+
+def lower_bound_from_guards(fn, blk, root):
+    """largest k such that a comparison of `root` (a local with one fixed value) with a constant, on a branch edge that dominates
+    block `blk`, implies root >= k (unsigned operands); 0 if none"""
+    cfg = cfg_of(fn)
+    best = 0
+    for d_ in range(len(fn["blocks"])):
+        b_ = fn["blocks"][d_]
+        t_ = b_["term"] or {}
+        if "switch" not in t_ or d_ == blk or not cfg.dominates(d_, blk):
+            continue
+        disc = t_["switch"]["discr"] if "discr" in t_["switch"] else t_["switch"].get("operand")
+        dpl = (disc.get("copy") or disc.get("move")) if isinstance(disc, dict) else None
+        if dpl is None or dpl["proj"]:
+            continue
+        cmp_ = None
+        for s_ in b_["stmts"]:
+            if "assign" in s_ and not s_["assign"][0]["proj"] and s_["assign"][0]["local"] == dpl["local"]:
+                rv = s_["assign"][1]
+                if isinstance(rv, dict) and "bin" in rv and rv["bin"][0] in ("Eq", "Ne", "Lt", "Le", "Gt", "Ge"):
+                    cmp_ = rv["bin"]
+        if cmp_ is None:
+            continue
+        op, x, y = cmp_
+        swap = {"Eq": "Eq", "Ne": "Ne", "Lt": "Gt", "Gt": "Lt", "Le": "Ge", "Ge": "Le"}
+        if _root_local(fn, x) == root and _const_int(y) is not None:
+            k = _const_int(y)
+        elif _root_local(fn, y) == root and _const_int(x) is not None:
+            k = _const_int(x)
+            op = swap[op]
+        else:
+            continue
+        targets = t_["switch"]["targets"]
+        other = t_["switch"]["otherwise"]
+        for truth, succ in [(bool(v), tb) for v, tb in targets] + [(None, other)]:
+            if truth is None:
+                vals = {v for v, _tb in targets}
+                truth = True if vals == {0} else (False if vals == {1} else None)
+                if truth is None:
+                    continue
+            # the edge d_ -> succ dominates blk when succ dominates blk and succ is entered from d_ only
+            if succ == blk or cfg.dominates(succ, blk):
+                if cfg.pred[succ] != [d_] or sum(1 for x_ in cfg.succ[d_] if x_ == succ) != 1 or ([tb for _v, tb in targets] + [other]).count(succ) != 1:
+                    continue
+                lb = 0
+                if (op, truth) in (("Eq", False), ("Ne", True)) and k == 0:
+                    lb = 1
+                elif (op, truth) in (("Gt", True), ("Le", False)):
+                    lb = k + 1
+                elif (op, truth) in (("Ge", True), ("Lt", False)):
+                    lb = k
+                elif (op, truth) in (("Eq", True), ("Ne", False)):
+                    lb = k
+                best = max(best, lb)
+    return best
+
+
+def guarded_arith(fn, blk, kind, detail):
+    """an unsigned `a - c` / `x % d` / `x / d` site that is provably fine because a branch on the way to it established a >= c (d >= 1)"""
+    t_ = fn["blocks"][blk]["term"] or {}
+    if kind != "assert" or "assert" not in t_:
+        return False
+    a_ = t_["assert"]
+    d_ = a_.get("detail") or {}
+    if a_.get("kind") == "Overflow" and d_.get("op") == "Sub" and re.search(r":(u\d+|usize)$", detail or ""):
+        c_ = _const_int(d_.get("b"))
+        root = _root_local(fn, d_.get("a"))
+        if c_ is None or root is None:
+            return False
+        return lower_bound_from_guards(fn, blk, root) >= c_
+    if a_.get("kind") in ("DivisionByZero", "RemainderByZero"):
+        # assert(!(divisor == 0)): the divisor is the operand of the comparison that feeds the assert
+        cpl = (a_.get("cond") or {}).get("move") or (a_.get("cond") or {}).get("copy")
+        dv = None
+        if cpl and not cpl["proj"]:
+            for s_ in fn["blocks"][blk]["stmts"]:
+                if "assign" in s_ and not s_["assign"][0]["proj"] and s_["assign"][0]["local"] == cpl["local"]:
+                    rv = s_["assign"][1]
+                    if isinstance(rv, dict) and "bin" in rv and rv["bin"][0] == "Eq" and _const_int(rv["bin"][2]) == 0:
+                        dv = rv["bin"][1]
+        root = _root_local(fn, dv) if dv else None
+        if root is None:
+            return False
+        return lower_bound_from_guards(fn, blk, root) >= 1
+    return False
+
+
 # sites allowed by their shape wherever they sit: (shape name) -> (reason, number of such sites confirmed on the pinned tree)
 SHAPE_ALLOW = {
     "rect-index": ("a collection of layout rectangles (Layout::split over a literal constraint list) indexed with a literal", None),
@@ -331,6 +480,9 @@ def ui_panic_rule(rep, prog):
                 continue
             if shape is not None:
                 shape_moved[shape] = shape_moved.get(shape, 0) + 1
+                continue
+            if guarded_arith(fn, blk, kind, detail):
+                rep.info("%s: %s %s at %s is discharged by a dominating comparison of the same value" % (pub_fn(path), kind, detail, site_where(sp)))
                 continue
             rep.violation("R2", "%s:%s:%s" % (pub_fn(path), kind, detail), "%s: unguarded panic site %s %s at %s is reachable from an operator action / redraw" % (pub_fn(path), kind, detail, site_where(sp)), site=site_where(sp))
     # an allow-listed reason covers the sites counted when it was written, not later additions of the same kind in that function
